@@ -1347,6 +1347,16 @@ BUILTINS = {
     "reversed": Builtin("reversed", lambda i, a, k, t: list(reversed(a[0])) if isinstance(a[0], (list, tuple)) else Opaque(f"reversed({to_text(a[0])})")),
     "ceil": Builtin("ceil", _b_ceil),
     "hex": Builtin("hex", _b_hex),
+    "abs": Builtin("abs", lambda i, a, k, t: abs(a[0]) if isinstance(a[0], (int, float)) and not isinstance(a[0], bool) else Opaque(f"abs({to_text(a[0])})")),
+    "oct": Builtin("oct", lambda i, a, k, t: oct(a[0]) if isinstance(a[0], int) else Opaque(f"oct({to_text(a[0])})")),
+    "bin": Builtin("bin", lambda i, a, k, t: bin(a[0]) if isinstance(a[0], int) else Opaque(f"bin({to_text(a[0])})")),
+    "divmod": Builtin("divmod", lambda i, a, k, t: divmod(a[0], a[1]) if all(isinstance(x, int) for x in a[:2]) and a[1] != 0 else Opaque("divmod(...)")),
+    "pow": Builtin("pow", lambda i, a, k, t: pow(*a) if all(isinstance(x, int) for x in a) and (len(a) < 2 or 0 <= a[1] < 4096) else Opaque("pow(...)")),
+    "round": Builtin("round", lambda i, a, k, t: round(*a) if all(isinstance(x, (int, float)) for x in a) else Opaque("round(...)")),
+    "sum": Builtin("sum", lambda i, a, k, t: sum(a[0]) if isinstance(a[0], (list, tuple)) and all(isinstance(x, (int, float)) for x in a[0]) else Opaque("sum(...)")),
+    "repr": Builtin("repr", lambda i, a, k, t: repr(a[0]) if isinstance(a[0], (int, str, float, bool)) or a[0] is None else Opaque(f"repr({to_text(a[0])})")),
+    "chr": Builtin("chr", lambda i, a, k, t: chr(a[0]) if isinstance(a[0], int) else Opaque("chr(...)")),
+    "ord": Builtin("ord", lambda i, a, k, t: ord(a[0]) if isinstance(a[0], str) and len(a[0]) == 1 else Opaque("ord(...)")),
     "dir": Builtin("dir", _b_dir),
     "bool": Builtin("bool", lambda i, a, k, t: i.truth(a[0], t) if a else False),
     "True": True,
